@@ -272,6 +272,10 @@ def js_pow(base: Union[int, float], exponent: Union[int, float]) -> Union[int, f
         return math.nan  # negative base, fractional exponent
     except OverflowError:
         return -math.inf if b < 0 and odd_integer else math.inf
+    if result == 0:
+        # the sign of a zero result counts ((-0) ** 3 and (-1e-200) ** 3 are -0),
+        # and a host int has no negative zero
+        return result if math.copysign(1, result) < 0 else 0
     if result.is_integer() and abs(result) < 2**53:
         return int(result)
     return result
